@@ -34,6 +34,61 @@ CHECKS = {
              "path is not claimed (property text). set_time is a setter: it replaces the slot, it does not refuse.",
         technique="Lean 4 invariant preservation proof over attribute-pair lists + op-sequence correspondence + normal-form oracle",
         design="§4.C05"),
+    "C18": dict(
+        text="Lean: _id_map is modelled as a separate component and proved to be the URI-indexed view of _records: c18_idmap_append, "
+             "c18_coherent_add (one _add_record), and WF (all containers coherent, all references allocated) is preserved by new_record "
+             "whether it succeeds or raises, by add_record sequences (update, constructors, unified, flattened, add_bundle of a document) and "
+             "by allocation (c18_newRecord_wf, c18_addRecords_wf, c18_allocCont_wf); on a coherent container get_record(x) = filter of the "
+             "record list by the URI x resolves to, for every spelling (c18_get_record, c18_spelling_independent); get_records(cls) = class "
+             "filter. Correspondence after every record-adding operation, in all 4 spellings, plus an independent scan oracle.",
+        note=A_COMMON + " 'prefix:local'/bare spellings denote what valid_qualified_name resolves them to (C03). The full-URI spelling "
+             "needed a fix: commit (adopted default namespace).",
+        technique="Lean 4 refinement proof (index = filter of list) by induction over heap operations + op-sequence correspondence",
+        design="§4.C18"),
+    "C04": dict(
+        text="Lean: record equality after the symmetry fix is reflexive and symmetric (recEq_refl, c04_recEq_symm, c04_anon_vs_identified); "
+             "the bundle comparison loop (set construction, length test, greedy removal) and the document comparison are transcribed in "
+             "the model and compared with the implementation on every generated pair in both argument orders. An independent content "
+             "oracle decides the expected answer for 15 edit kinds, including in-place edits after a record has been hashed.",
+        note=A_COMMON + " Transitivity and 'greedy loop = set equality' are not yet proved in Lean (open obligations, covered by the "
+             "correspondence and the content oracle only).",
+        technique="Lean 4 proofs about the transcribed __eq__ + differential correspondence on document pairs + content oracle",
+        design="§4.C04"),
+    "C08": dict(
+        text="Lean: second pass of _unified_records as placeMerged: nothing lost (every source record is represented by itself or by its "
+             "merged record), nothing invented, no duplicates, identity when nothing is merged (c08_nothing_lost, c08_nothing_invented, "
+             "c08_no_duplicates, c08_no_merge_identity). First pass (grouping by identifier URI and kind after the fix, merging through "
+             "copy/add_attributes) mirrored in the model; unified() of documents and bundles compared with an independent specification "
+             "(union of attributes, first-occurrence order, ProvException iff formal conflict), idempotence, source unchanged.",
+        note=A_COMMON + " Known finding C08-1: unified() registers namespaces in a source bundle. Identified membership records are not claimed.",
+        technique="Lean 4 list lemmas on the placement pass + op-sequence correspondence + independent unification spec",
+        design="§4.C08"),
+    "C09": dict(
+        text="Lean: a successful new_record appends exactly one record of the requested kind to its container (c09_newRecord_appends); "
+             "an add_record sequence (body of update, flattened, constructors, add_bundle of a document) leaves the target with its former "
+             "records followed by one new record per source record, same kinds, same order, other cells untouched "
+             "(c09_addRecords_conserves). Strict URI-level multiset conservation, refusals (duplicate / missing identifier / nested bundles) "
+             "and immutability of `other` are checked on the real code by a conservation oracle and by correspondence.",
+        note=A_COMMON + " URI-level equality of each re-created record is covered by correspondence + oracle, not yet by a Lean theorem.",
+        technique="Lean 4 induction over add_record sequences + op-sequence correspondence + multiset conservation oracle",
+        design="§4.C09"),
+    "C12": dict(
+        text="Lean heap model: allocation is fresh (allocCont_fresh, c12_alloc_fresh); a mutator (add_namespace, set_default_namespace, "
+             "new_record) on container c leaves the container cell, manager cell and record cells of any container with another manager "
+             "cell unchanged (c12_mut_frame), hence for every follow-up mutation sequence of any length (c12_noninterference, induction). "
+             "Derive->mutate->observe histories on the real objects for 11 deriving operations x 7 mutators, both directions.",
+        note=A_COMMON + " Aliasing below record granularity (shared attribute sets) is not expressible in the heap model; it is exposed by the "
+             "non-interference oracle and as a correspondence difference.",
+        technique="Lean 4 frame/separation proofs over a heap model + non-interference oracle on real objects",
+        design="§4.C12"),
+    "C13": dict(
+        text="Lean: text/graph exporters are pure functions of the heap (no way to write; repeatability is functional congruence), the "
+             "allocating exporters flattened()/add_record sequences leave every pre-existing container, manager and record cell unchanged "
+             "(c13_addRecords_frame, c13_flattened_frame). On the real code: full observation before/after every exporter and option "
+             "combination in random orders, text exports twice and on a twin built by the same calls, RDF graph isomorphism.",
+        note=A_COMMON + " Known finding C13-1 (= C08-1): unified() registers namespaces in a source bundle. Repeatability across processes is not claimed.",
+        technique="Lean 4 frame proofs (exporters as pure/allocating heap functions) + before/after observation oracle",
+        design="§4.C13"),
 }
 
 NOT_APPLICABLE = []
